@@ -629,6 +629,11 @@ int main (int argc, char **argv) {
 		rp_print_ord (stdout);
 		return st.violations ? 1 : 0;
 	}
+	if (!strcmp (argv[1], "pb") && argc >= 5) {
+		FILE *f = fopen (argv[2], "r");
+		if (!f) { perror (argv[2]); return 2; }
+		return rp_explore_pb (f, &h, atoi (argv[3]), atol (argv[4]), argc > 5 ? argv[5] : NULL, prop, NULL, 20000) ? 1 : 0;
+	}
 	if (!strcmp (argv[1], "from") && argc >= 5) {
 		FILE *f = fopen (argv[2], "r");
 		if (!f) { perror (argv[2]); return 2; }
